@@ -18,13 +18,16 @@ import (
 )
 
 type Cfg struct {
-	Cache   int    `json:"cache"`
-	Fast    bool   `json:"fast"`
-	Flush   int    `json:"flush"` // 0 = library default
-	Sync    bool   `json:"sync,omitempty"`
-	IV      int64  `json:"iv"`
-	IVSet   bool   `json:"ivset,omitempty"`
-	Backend string `json:"backend,omitempty"` // "" = vstore, "memdb", "prefix", "leveldb"
+	Cache int   `json:"cache"`
+	Fast  bool  `json:"fast"`
+	Flush int   `json:"flush"` // 0 = library default
+	Sync  bool  `json:"sync,omitempty"`
+	IV    int64 `json:"iv"`
+	IVSet bool  `json:"ivset,omitempty"`
+	// IVSetter: the initial version is configured with MutableTree.SetInitialVersion after construction instead of
+	// InitialVersionOption (both are public ways to configure it)
+	IVSetter bool   `json:"iv_setter,omitempty"`
+	Backend  string `json:"backend,omitempty"` // "" = vstore, "memdb", "prefix", "leveldb"
 }
 
 func (c Cfg) String() string {
@@ -254,14 +257,23 @@ func (c Cfg) options() []iavl.Option {
 	if c.Sync {
 		opts = append(opts, iavl.SyncOption(true))
 	}
-	if c.IVSet {
+	if c.IVSet && !c.IVSetter {
 		opts = append(opts, iavl.InitialVersionOption(uint64(c.IV)))
 	}
 	return opts
 }
 
+// newTree builds a MutableTree over db with the options of the configuration.
+func (c Cfg) newTree(db corestore.KVStoreWithBatch, cache int, skipFast bool) *iavl.MutableTree {
+	t := iavl.NewMutableTree(db, cache, skipFast, iavl.NewNopLogger(), c.options()...)
+	if c.IVSet && c.IVSetter {
+		t.SetInitialVersion(uint64(c.IV))
+	}
+	return t
+}
+
 func (w *World) open(cfg Cfg) *iavl.MutableTree {
-	return iavl.NewMutableTree(w.DB, cfg.Cache, !cfg.Fast, iavl.NewNopLogger(), cfg.options()...)
+	return cfg.newTree(w.DB, cfg.Cache, !cfg.Fast)
 }
 
 // safely runs f, converting a panic into a violation.
